@@ -1,1 +1,105 @@
-harnesses! {}
+//! C13 — affine transforms: commutation of the predicates with exact similarity maps
+//! (relational harnesses, no oracle).  The matrix algebra and the trait forms are proved by E2
+//! (smt/obligations.py); here the maps are applied through geo's own `affine_transform`
+//! (AffineOps -> MapCoords), so that path is in the loop.  `T = i16`.
+use crate::gen::*;
+use crate::oracle::*;
+use crate::Src;
+use geo::coordinate_position::CoordinatePosition;
+use geo::kernels::{Kernel, Orientation};
+use geo::winding_order::Winding;
+use geo::{AffineOps, AffineTransform, GeoNum, Intersects};
+use geo_types::{Line, LineString, Triangle};
+
+/// exact maps: 0 translation by (dx,dy); 1 axis swap; 2 x-reflection; 3 y-reflection;
+/// 4 quarter turn; 5 scaling by 2; 6 quarter turn then translation.  Returns (map, determinant)
+pub fn exact_map<S: Src>(s: &mut S, k: u8) -> (AffineTransform<I>, I) {
+    let (dx, dy) = (s.grid(2) as I, s.grid(2) as I);
+    match k {
+        0 => (AffineTransform::translate(dx, dy), 1),
+        1 => (AffineTransform::new(0, 1, 0, 1, 0, 0), -1),
+        2 => (AffineTransform::new(-1, 0, 0, 0, 1, 0), -1),
+        3 => (AffineTransform::new(1, 0, 0, 0, -1, 0), -1),
+        4 => (AffineTransform::new(0, -1, 0, 1, 0, 0), 1),
+        5 => (AffineTransform::new(2, 0, 0, 0, 2, 0), 4),
+        _ => (AffineTransform::new(0, -1, 0, 1, 0, 0).compose(&AffineTransform::translate(dx, dy)), 1),
+    }
+}
+
+fn flip(o: Orientation) -> Orientation {
+    match o {
+        Orientation::CounterClockwise => Orientation::Clockwise,
+        Orientation::Clockwise => Orientation::CounterClockwise,
+        Orientation::Collinear => Orientation::Collinear,
+    }
+}
+
+/// orientation, segment intersection and triangle position commute with the map
+pub fn commute_predicates<S: Src>(s: &mut S, n: i8, k: u8) {
+    let (m, dt) = exact_map(s, k);
+    let (a, b, c, d) = (gp(s, n), gp(s, n), gp(s, n), gp(s, n));
+    let (l1, l2) = (line_i(a, b), line_i(c, d));
+    let (m1, m2): (Line<I>, Line<I>) = (l1.affine_transform(&m), l2.affine_transform(&m));
+    assert!(m1.intersects(&m2) == l1.intersects(&l2), "Line.intersects(Line) changes under an exact similarity map");
+    let o = <I as GeoNum>::Ker::orient2d(ci(a), ci(b), ci(c));
+    let om = <I as GeoNum>::Ker::orient2d(m.apply(ci(a)), m.apply(ci(b)), m.apply(ci(c)));
+    assert!(om == if dt < 0 { flip(o) } else { o }, "orientation does not transform with the sign of the determinant");
+    if orient(a, b, c) != 0 {
+        let t = Triangle(ci(a), ci(b), ci(c));
+        let tm = t.affine_transform(&m);
+        assert!(tm.coordinate_position(&m.apply(ci(d))) == t.coordinate_position(&ci(d)), "Triangle coordinate_position changes under an exact similarity map");
+    }
+    vcover!(l1.intersects(&l2) && a != b && c != d, "intersecting segments");
+}
+
+/// ring-level measures: winding flips with the determinant's sign, twice-area scales by det
+pub fn commute_ring<S: Src>(s: &mut S, n: i8, k: u8) {
+    let (m, dt) = exact_map(s, k);
+    let (a, b, c) = (gp(s, n), gp(s, n), gp(s, n));
+    vassume!(orient(a, b, c) != 0);
+    let r = ls_i(&[a, b, c, a]);
+    let rm: LineString<I> = r.affine_transform(&m);
+    assert!(rm.0.len() == 4 && rm.0[0] == rm.0[3], "mapped ring is not closed");
+    let (w, wm) = (r.winding_order(), rm.winding_order());
+    assert!(w.is_some() && wm.is_some(), "winding of a non-degenerate ring is None");
+    assert!((w == wm) == (dt > 0), "winding order does not flip exactly under orientation-reversing maps");
+    let (a2, a2m) = (geo::kani_hooks::twice_signed_ring_area(&r), geo::kani_hooks::twice_signed_ring_area(&rm));
+    assert!(a2m == a2 * dt, "area does not scale by the determinant of the map");
+    let mut r2 = r.clone();
+    r2.affine_transform_mut(&m);
+    assert!(r2 == rm, "affine_transform_mut disagrees with affine_transform");
+    core::mem::forget(r);
+    core::mem::forget(rm);
+    core::mem::forget(r2);
+}
+
+/// compose_many folds left to right
+pub fn compose_many<S: Src>(s: &mut S) {
+    let e = |s: &mut S| s.grid(2) as I;
+    let a = AffineTransform::new(e(s), e(s), e(s), e(s), e(s), e(s));
+    let b = AffineTransform::new(e(s), e(s), e(s), e(s), e(s), e(s));
+    let c = AffineTransform::new(e(s), e(s), e(s), e(s), e(s), e(s));
+    let p = ci(gp(s, 2));
+    let m = a.compose_many(&[b, c]);
+    assert!(m.apply(p) == c.apply(b.apply(a.apply(p))), "compose_many(a; [b, c]) is not 'a then b then c'");
+    assert!(a.compose_many(&[]) == a, "compose_many with no transforms is not the identity composition");
+}
+
+harnesses! {
+    #[kani::unwind(6)] fn c13_commute_pred_translate(s) { commute_predicates(s, 2, 0) }
+    #[kani::unwind(6)] fn c13_commute_pred_swap(s) { commute_predicates(s, 2, 1) }
+    #[kani::unwind(6)] fn c13_commute_pred_reflect_x(s) { commute_predicates(s, 2, 2) }
+    #[kani::unwind(6)] fn c13_commute_pred_reflect_y(s) { commute_predicates(s, 2, 3) }
+    #[kani::unwind(6)] fn c13_commute_pred_quarter_turn(s) { commute_predicates(s, 2, 4) }
+    #[kani::unwind(6)] fn c13_commute_pred_scale2(s) { commute_predicates(s, 2, 5) }
+    #[kani::unwind(6)] fn c13_commute_pred_turn_translate(s) { commute_predicates(s, 2, 6) }
+    #[kani::unwind(7)] fn c13_commute_ring_translate(s) { commute_ring(s, 2, 0) }
+    #[kani::unwind(7)] fn c13_commute_ring_reflect_x(s) { commute_ring(s, 2, 2) }
+    #[kani::unwind(7)] fn c13_commute_ring_quarter_turn(s) { commute_ring(s, 2, 4) }
+    #[kani::unwind(7)] fn c13_commute_ring_scale2(s) { commute_ring(s, 2, 5) }
+    #[kani::unwind(5)] fn c13_compose_many(s) { compose_many(s) }
+    #[kani::unwind(6)] fn c13_sanity_must_fail(s) {
+        commute_predicates(s, 1, 4);
+        assert!(false, "sanity twin reached its end");
+    }
+}
